@@ -39,7 +39,8 @@ def canon_rows(rows):
 
 
 def gen_table(rng, cols_max=6, rows_max=12):
-    base = [1, 3, 6, 1, 2, 1, rng.randint(2, 30)]
+    # (table OIDs ending in .1 are common: ifXTable is 1.3.6.1.2.1.31.1.1)
+    base = [1, 3, 6, 1, 2, 1, rng.randint(2, 30)] + rng.choice([[], [], [], [1], [5, 1, 1], [31, 1]])
     entry = base + [1]
     cols = sorted(rng.sample(range(1, 12), rng.randint(1, cols_max)))
     k = rng.randint(1, 4)
@@ -132,12 +133,12 @@ def run(ctx):
         version, level = protos[i % len(protos)]
         size = ctx.rng.choice([1, 2, 3, 10, 25])
         results = {}
-        for variant in ("table", "bulktable", "pytable"):
-            if variant == "bulktable" and version == "v1":
+        for variant in ("table", "bulktable", "pytable", "pybulktable"):
+            if variant in ("bulktable", "pybulktable") and version == "v1":
                 continue
             agent = RA.Agent(db=[(tuple(o), v) for o, v in db], bulk_policy={"rows": ctx.rng.choice([None, None, 1, 2]), "cut": 0})
             client = W.make_client(agent, version, level)
-            if i % 5 == 2 and variant != "pytable":
+            if i % 5 == 2 and not variant.startswith("py"):
                 # the client has a history: an earlier walk of the same table that its consumer
                 # abandoned after the first item, and one that failed half-way — a fetch is a
                 # function of the agent's table, not of what the client did before
@@ -161,8 +162,11 @@ def run(ctx):
                     rows = ["ok", canon_rows(W.run(client.table(RA.OID(entry))))]
                 elif variant == "bulktable":
                     rows = ["ok", canon_rows(W.run(client.bulktable(RA.OID(base), bulk_size=size)))]
-                else:
+                elif variant == "pytable":
                     shape, idx = py_rows_to_canon(W.run(PyWrapper(client).table(".".join(map(str, entry)))))
+                    rows = ["py", shape, idx]
+                else:
+                    shape, idx = py_rows_to_canon(W.run(PyWrapper(client).bulktable(".".join(map(str, base)), bulk_size=size)))
                     rows = ["py", shape, idx]
             except Exception as exc:  # noqa: BLE001
                 rows = ["error", RA.canon_exc(exc)]
@@ -170,7 +174,7 @@ def run(ctx):
             case = {"db": db, "entry": entry, "table": base, "variant": variant, "size": size, "version": version, "level": level, "policy": agent.bulk_policy}
             res.count(f"e2e:{variant}")
             res.count("cells", sum(1 for o, _ in db if o[: len(entry)] == entry))
-            if variant == "pytable":
+            if variant.startswith("py"):
                 continue
             if rows[0] == "ok":
                 bad = oracle(db, entry, rows[1])
@@ -187,11 +191,14 @@ def run(ctx):
         t, b, p = results.get("table"), results.get("bulktable"), results.get("pytable")
         if t and b and t[0] == "ok" and b[0] == "ok" and t != b:
             res.violate("e2e-table", {"db": db, "entry": entry, "table": base, "size": size}, t[1][:3], b[1][:3], "table() and bulktable() return different rows", {"kind": "table-variants-differ"})
-        if t and p and t[0] == "ok" and p[0] == "py":
-            shape = [sorted((k, c[0]) for k, c in r) for r in t[1]]
-            idx = [".".join(map(str, dict((k, c) for k, c in r)[0][1])) for r in t[1]]
-            if shape != p[1] or idx != p[2]:
-                res.violate("e2e-table", {"db": db, "entry": entry}, [shape[:3], idx[:3]], [p[1][:3], p[2][:3]], "PyWrapper.table rows differ in shape from Client.table rows", {"kind": "table-py-differs"})
+        for pv, what in ((p, "PyWrapper.table"), (results.get("pybulktable"), "PyWrapper.bulktable")):
+            if t and pv and t[0] == "ok" and pv[0] == "py":
+                shape = [sorted((k, c[0]) for k, c in r) for r in t[1]]
+                idx = [".".join(map(str, dict((k, c) for k, c in r)[0][1])) for r in t[1]]
+                if shape != pv[1] or idx != pv[2]:
+                    res.violate("e2e-table", {"db": db, "entry": entry, "table": base, "size": size}, [shape[:3], idx[:3]], [pv[1][:3], pv[2][:3]], f"{what} rows differ in shape from Client.table rows", {"kind": "table-py-differs"})
+            elif t and pv and t[0] == "ok" and pv[0] == "error":
+                res.violate("e2e-table", {"db": db, "entry": entry, "table": base, "size": size}, "rows", pv, f"{what} raised", {"kind": "table-raised", "variant": what})
     if ctx.driver_ok:
         for (suite, case, got), ans in zip(impls, run_driver(reqs)):
             res.case(suite, case, nontrivial=bool(got[0] == "ok" and got[1]))
